@@ -127,3 +127,151 @@ theorem find_some_mem {k : Key} {q : Q} {v : Val} (h : find k q = some v) : (k, 
       exact List.mem_cons_of_mem _ (ih h)
 
 end ZV.C35
+
+/-! ## second wave: history-level helpers -/
+namespace ZV.C35
+
+def opKey : Op → Key
+  | .put k _ => k
+  | .get k => k
+
+/-- 1-based position of the last operation of the history that names key `k` (0 = never named). -/
+def lastUse (k : Key) : List Op → Nat
+  | [] => 0
+  | op :: ops => if lastUse k ops ≠ 0 then lastUse k ops + 1 else if opKey op = k then 1 else 0
+
+/-- the session of the most recent `Put` on `k` in the history (`none` = no `Put` on `k`). -/
+def lastPut (k : Key) : List Op → Option Val
+  | [] => none
+  | op :: ops =>
+    match lastPut k ops with
+    | some v => some v
+    | none =>
+      match op with
+      | .put k' v => if k' = k then some v else none
+      | .get _ => none
+
+theorem lastUse_snoc (k : Key) (ops : List Op) (op : Op) :
+    lastUse k (ops ++ [op]) = if opKey op = k then ops.length + 1 else lastUse k ops := by
+  induction ops with
+  | nil => simp [lastUse]
+  | cons a ops ih =>
+    simp only [List.cons_append, lastUse, ih, List.length_cons]
+    by_cases h : opKey op = k
+    · simp [h]
+    · simp [h]
+
+theorem lastUse_le (k : Key) (ops : List Op) : lastUse k ops ≤ ops.length := by
+  induction ops with
+  | nil => simp [lastUse]
+  | cons a ops ih =>
+    simp only [lastUse, List.length_cons]
+    split
+    · omega
+    · split <;> omega
+
+theorem run_snoc_state (c : Cache) (ops : List Op) (op : Op) :
+    (run c (ops ++ [op])).1 = (step (run c ops).1 op).1 := by
+  induction ops generalizing c with
+  | nil => simp [run]
+  | cons a ops ih => simp only [List.cons_append, run]; exact ih _
+
+theorem keys_cons (e : Key × Val) (q : Q) : keys (e :: q) = e.1 :: keys q := rfl
+
+theorem find_mem_keys {k : Key} {q : Q} {v : Val} (h : find k q = some v) : k ∈ keys q := by
+  by_cases hn : k ∈ keys q
+  · exact hn
+  · rw [(find_none_iff k q).mpr hn] at h
+    cases h
+
+theorem hasKey_false_iff (k : Key) (q : Q) : hasKey k q = false ↔ k ∉ keys q := by
+  rw [← hasKey_iff]; simp
+
+theorem keys_dropLast (q : Q) : keys q.dropLast = (keys q).dropLast := by
+  simp [keys, List.map_dropLast]
+
+/-- shape of the key list after one step: the named key is either gone / absent, or at the front;
+    everything else is a sublist (same relative order) of the old list. -/
+theorem step_keys_shape (c : Cache) (op : Op) :
+    ((keys (step c op).1.q).Sublist (keys c.q) ∧ opKey op ∉ keys (step c op).1.q) ∨
+    ∃ l, keys (step c op).1.q = opKey op :: l ∧ l.Sublist (keys c.q) ∧ opKey op ∉ l := by
+  have hsubE : ∀ k, (keys (erase k c.q)).Sublist (keys c.q) := by
+    intro k; rw [keys_erase]; exact List.filter_sublist
+  cases op with
+  | put k v =>
+    simp only [step, opKey, put]
+    cases hk : hasKey k c.q with
+    | true =>
+      cases v with
+      | none => exact Or.inl ⟨hsubE k, not_mem_keys_erase k c.q⟩
+      | some x => exact Or.inr ⟨_, rfl, hsubE k, not_mem_keys_erase k c.q⟩
+    | false =>
+      have hmem := (hasKey_false_iff k c.q).mp hk
+      cases v with
+      | none => exact Or.inl ⟨List.Sublist.refl _, hmem⟩
+      | some x =>
+        simp only [Bool.false_eq_true, if_false]
+        by_cases hlen : c.q.length < c.cap
+        · simp only [hlen, if_true]
+          exact Or.inr ⟨_, rfl, List.Sublist.refl _, hmem⟩
+        · simp only [hlen, if_false]
+          refine Or.inr ⟨keys c.q.dropLast, rfl, ?_, ?_⟩
+          · rw [keys_dropLast]; exact List.dropLast_sublist _
+          · rw [keys_dropLast]; exact fun h => hmem (List.dropLast_subset _ h)
+  | get k =>
+    simp only [step, opKey, get]
+    cases hf : find k c.q with
+    | none => exact Or.inl ⟨List.Sublist.refl _, (find_none_iff k c.q).mp hf⟩
+    | some v => exact Or.inr ⟨_, rfl, hsubE k, not_mem_keys_erase k c.q⟩
+
+theorem mem_not_dropLast_getLast {α} [DecidableEq α] {a : α} {l : List α} (h : a ∈ l) (hn : a ∉ l.dropLast) :
+    l.getLast? = some a := by
+  have hne : l ≠ [] := by intro h0; simp [h0] at h
+  have hl := List.dropLast_concat_getLast hne
+  rw [← hl, List.mem_append] at h
+  rcases h with h | h
+  · exact absurd h hn
+  · simp only [List.mem_singleton] at h
+    rw [List.getLast?_eq_some_getLast hne, h]
+
+/-! find after one operation -/
+theorem find_put_same {c : Cache} {k : Key} {v w : Val} (h : find k (put c k v).q = some w) : v = w := by
+  unfold put at h
+  cases hk : hasKey k c.q with
+  | true =>
+    simp only [hk, if_true] at h
+    cases v with
+    | none =>
+      simp only at h
+      rw [(find_none_iff k _).mpr (not_mem_keys_erase k c.q)] at h
+      cases h
+    | some x => simpa [find] using h
+  | false =>
+    have hmem := (hasKey_false_iff k c.q).mp hk
+    simp only [hk, Bool.false_eq_true, if_false] at h
+    cases v with
+    | none =>
+      simp only at h
+      rw [(find_none_iff k _).mpr hmem] at h
+      cases h
+    | some x =>
+      simp only at h
+      split at h <;> simpa [find] using h
+
+theorem find_get (c : Cache) (k k' : Key) : find k (get c k').1.q = find k c.q := by
+  unfold get
+  cases hf : find k' c.q with
+  | none => rfl
+  | some v =>
+    simp only
+    by_cases hkk : k = k'
+    · have hf' := hf
+      unfold find at hf'
+      rw [hkk]
+      simp only [find, List.find?_cons, beq_self_eq_true, Option.map_some]
+      exact hf'.symm
+    · have : (k' == k) = false := by simp; exact fun h => hkk h.symm
+      simp only [find, List.find?_cons, this]
+      exact find_erase_ne c.q hkk
+
+end ZV.C35
